@@ -267,6 +267,14 @@ add("VoIEER_sub", P.ValueOfInformationEER,
     lambda s, ml=NAN: P.ValueOfInformationEER(subtract_current=True, normalize=True, missing_label=ml, random_state=s),
     lambda c: dict(clf=_ctx_clf(c)), arbitrary_index_ok=True, independent=True, perm=True, feat=False,
     model_arg="clf", nmax=20, slow=2)
+# expected error reduction around scikit-learn estimators (retraining path of IndexClassifierWrapper instead of the
+# Parzen-window speed-up; with native partial_fit in the second entry)
+add("MonteCarloEER_tree", P.MonteCarloEER, lambda s, ml=NAN: P.MonteCarloEER(missing_label=ml, random_state=s),
+    lambda c: dict(clf=_ctx_clf(c, "tree")), arbitrary_index_ok=True, model_arg="clf", nmax=14, slow=3)
+add("VoIEER_nb_pf", P.ValueOfInformationEER,
+    lambda s, ml=NAN: P.ValueOfInformationEER(missing_label=ml, random_state=s),
+    lambda c: dict(clf=_ctx_clf(c, "nb"), ignore_partial_fit=False), arbitrary_index_ok=True, feat=False,
+    model_arg="clf", nmax=14, slow=3, domain=_nb_domain)
 add("EpistemicUS", P.EpistemicUncertaintySampling,
     lambda s, ml=NAN: P.EpistemicUncertaintySampling(missing_label=ml, random_state=s),
     lambda c: dict(clf=clf_pwc(c["classes"][:2], c.get("ml", NAN))), arbitrary_index_ok=True,
